@@ -2,6 +2,7 @@ package main
 
 import (
 	"fmt"
+	"go.dedis.ch/kyber/v3/util/key"
 	"math/rand"
 	"strconv"
 	"strings"
@@ -24,6 +25,34 @@ import (
 type c04fixture struct {
 	cl    *fix.Cluster
 	trees map[string]c04tree
+	wide  *onet.Roster
+}
+
+// roster returns a roster with at least n members: the cluster's, or — for fan-outs beyond the
+// cluster — the cluster's servers followed by identities that exist as keys only (the receiving
+// server never dials a sender: envelopes are injected with the sender's identity attached).
+func (f *c04fixture) roster(n int) *onet.Roster {
+	if n <= len(f.cl.Roster.List) {
+		return f.cl.Roster
+	}
+	if f.wide == nil || len(f.wide.List) < n {
+		sis := append([]*network.ServerIdentity{}, f.cl.Roster.List...)
+		if f.wide != nil {
+			sis = append([]*network.ServerIdentity{}, f.wide.List...)
+		}
+		for len(sis) < n+8 {
+			kp := key.NewKeyPair(fix.Suite)
+			sis = append(sis, network.NewServerIdentity(kp.Public, network.NewLocalAddress(fmt.Sprintf("ghost%d:2000", len(sis)))))
+		}
+		f.wide = onet.NewRoster(sis)
+		// trees over the previous wide roster have another roster id: forget them
+		for k, t := range f.trees {
+			if len(t.t.Roster.List) > len(f.cl.Roster.List) {
+				delete(f.trees, k)
+			}
+		}
+	}
+	return f.wide
 }
 
 type c04tree struct {
@@ -57,10 +86,10 @@ func (f *c04fixture) tree(root bool, k int) c04tree {
 			parent = append(parent, 0)
 			member = append(member, i+1)
 		}
-		t, nodes := fix.BuildTree(f.cl.Roster, parent, member)
+		t, nodes := fix.BuildTree(f.roster(k+2), parent, member)
 		ct = c04tree{t, nodes[0], 0}
 	} else {
-		t, nodes := fix.Fan(f.cl.Roster, k)
+		t, nodes := fix.Fan(f.roster(k+2), k)
 		ct = c04tree{t, nodes[1], 1}
 	}
 	f.cl.Overlay(ct.srv).RegisterTree(ct.t)
@@ -71,11 +100,12 @@ func (f *c04fixture) tree(root bool, k int) c04tree {
 // unknownTree builds the shape of tree(root, k) over a re-ordered roster (another roster id, hence
 // another tree id): node i is still hosted by server i, but no server has seen this tree.
 func (f *c04fixture) unknownTree(root bool, k int, r *rand.Rand) c04tree {
-	perm := r.Perm(len(f.cl.Roster.List))
+	base := f.roster(k + 2)
+	perm := r.Perm(len(base.List))
 	var sis []*network.ServerIdentity
 	pos := map[int]int{}
 	for i, j := range perm {
-		sis = append(sis, f.cl.Roster.List[j])
+		sis = append(sis, base.List[j])
 		pos[j] = i
 	}
 	ro := onet.NewRoster(sis)
@@ -99,6 +129,47 @@ func (f *c04fixture) unknownTree(root bool, k int, r *rand.Rand) c04tree {
 	return c04tree{t, nodes[1], 1}
 }
 
+// scrambled builds the shape of tree(root, k) over the reversed roster (another tree id), node i
+// still hosted by server i, but with the advisory RosterIndex field of every node pointing at the
+// roster position of the NEXT node of the tree: the field is not what binds a node to its server.
+// With register the tree is stored on the target's server (once); otherwise a fresh equal copy.
+func (f *c04fixture) scrambled(root bool, k int, register bool) c04tree {
+	key := fmt.Sprint("scr", root, k)
+	if t, ok := f.trees[key]; ok && register {
+		return t
+	}
+	base := f.roster(k + 2)
+	n := len(base.List)
+	var sis []*network.ServerIdentity
+	for i := n - 1; i >= 0; i-- {
+		sis = append(sis, base.List[i])
+	}
+	ro := onet.NewRoster(sis)
+	pos := func(j int) int { return n - 1 - j }
+	parent := []int{-1}
+	member := []int{pos(0)}
+	first := 1
+	if !root {
+		parent = append(parent, 0)
+		member = append(member, pos(1))
+		first = 2
+	}
+	for i := 0; i < k; i++ {
+		parent = append(parent, first-1)
+		member = append(member, pos(first+i))
+	}
+	t, nodes := fix.BuildTree(ro, parent, member)
+	for i, nd := range nodes {
+		nd.RosterIndex = member[(i+1)%len(nodes)]
+	}
+	ct := c04tree{t, nodes[first-1], first - 1}
+	if register {
+		f.cl.Overlay(ct.srv).RegisterTree(ct.t)
+		f.trees[key] = ct
+	}
+	return ct
+}
+
 // freshCopy builds the tree of tree(root, k) again: an equal tree, other objects.
 func (f *c04fixture) freshCopy(root bool, k int) *onet.Tree {
 	if root {
@@ -108,10 +179,10 @@ func (f *c04fixture) freshCopy(root bool, k int) *onet.Tree {
 			parent = append(parent, 0)
 			member = append(member, i+1)
 		}
-		t, _ := fix.BuildTree(f.cl.Roster, parent, member)
+		t, _ := fix.BuildTree(f.roster(k+2), parent, member)
 		return t
 	}
-	t, _ := fix.Fan(f.cl.Roster, k)
+	t, _ := fix.Fan(f.roster(k+2), k)
 	return t
 }
 
@@ -316,6 +387,15 @@ func c04gen(c *h.Ctx, yield func(*h.Case)) {
 			for i := 0; i < reps; i++ {
 				premise(root, k, 1+r.Intn(3), r.Intn(2*k+3))
 			}
+		}
+	}
+	// wide fan-outs, around the sizes of machine words (senders beyond the cluster exist as keys only)
+	for _, k := range []int{31, 32, 33, 63, 64, 65, 70, 127, 129} {
+		if c.Tier != "thorough" && k > 70 {
+			continue
+		}
+		for _, root := range []bool{false, true} {
+			premise(root, k, 2, 5)
 		}
 	}
 	// all arrival orders of one round for small fan-outs (thorough: up to 5 children)
